@@ -35,12 +35,14 @@ CLAIMED = {
    note="Assumed: the description of a clean stream (hypotheses CLEAN(p) in props/clean_hdlc.py; checked against every generated clean stream by the bounded run ideal_check, reachability of every step kind by cover canaries); the free choice of the "
         "array that represents an empty frame (ghost function new_frame_array). Bounded cross-checks on the real reader: 500/12000 generated clean streams, 300/6000 streams with the contract evaluated after every call.",
    technique=DED + "; second contract of read() with ghost functions of the stream position (ideal un-stuffer), composed through the callee's contract", design="DESIGN.md section 9 C02 and 14.6"),
- "C06": dict(level="other",
-   text="Deductive part (unbounded, four configurations): read() is entered and left with nothing unconsumed; every loop iteration is one _read_next step whose effect is a function of (mode, frame octets, raw octets, pending escape) and the "
-        "next octet (clauses T1-T10); hunt-mode trimming only skips no-op octets; the state is tied to the ghost input stream; generic fold-split lemma over an uninterpreted step function. The final induction composing these into chunk independence "
-        "is argued in DESIGN.md, not mechanised; a BOUNDED exhaustive differential run on the real reader stands in for it; hence 'other'.",
-   note="Bounded stand-in: all streams of 3 prefixes x up to 4 (quick) / 6 (thorough) octets over a 5-letter alphabet x every single cut and byte-at-a-time x 4 configurations, plus random multi-cut streams.",
-   technique=DED + " for per-step locality and the fold-split lemma; bounded differential for the composition", design="DESIGN.md section 9 C06"),
+ "C06": dict(level="proof",
+   text="Deductive, unbounded, four configurations, every byte stream: _read_next's contract (reader invariant + exact transition clauses T1-T14, proved on the real source) and a contract of the real read() against an ideal receiver: ghost "
+        "functions of the stream position defined by recurrence on the position alone (the T-clauses read as definitions) give the receiver's mode, frame array, length, pending escape, raw length and number of completed frames at p. "
+        "read(chunk) takes 'the reader's state is the ideal receiver's at g' to the same at g+len(chunk) and returns exactly the ideal receiver's completions inside the chunk, in order, with its octets. The ideal receiver depends on the stream "
+        "only, so any two splittings return the same frames; validity and payload are functions of the octets (C01 contracts). Hunt-mode skipping by an induction lemma.",
+   note="Assumed: chunks are consecutive segments of one stream; the composition over calls is the sequential-composition rule. Cross-checks on the real reader (bounded): exhaustive small-scope differential (all streams of 3 prefixes x up to 4/6 octets "
+        "over a 5-letter alphabet x every single cut and byte-at-a-time), 400/8000 generated streams with the contract evaluated after every call against a reference receiver.",
+   technique=DED + "; contract of read() against ghost functions of the stream position (ideal receiver), composed through the callee's contract; induction lemma for hunt-mode skipping", design="DESIGN.md section 9 C06 and 14.7"),
  "C07": dict(level="proof",
    text="Deductive through the grammar layer: the real Aidon decode functions are executed symbolically over the dumped construct object graph for every documented list (bare body and LLC frame), with every register, scaler, character and date-time field symbolic "
         "over its full range: no exception, exactly the expected keys, value == register x 10^scaler (exact integer, or the correctly rounded float of the exact decimal), text verbatim, clock element, manufacturer; frame and body agree. Lists are enumerated, values are not.",
